@@ -420,7 +420,9 @@ var hostWrites = []hostWrite{
 	{"WriteByte", 1, func(m api.Memory, o uint32, v uint64) bool { return m.WriteByte(o, byte(v)) }, func(v uint64) uint64 { return v&0xff | 1 }},
 	{"WriteUint16Le", 2, func(m api.Memory, o uint32, v uint64) bool { return m.WriteUint16Le(o, uint16(v)) }, func(v uint64) uint64 { return v&0xffff | 0x0101 }},
 	{"WriteUint32Le", 4, func(m api.Memory, o uint32, v uint64) bool { return m.WriteUint32Le(o, uint32(v)) }, func(v uint64) uint64 { return v&0xffffffff | 0x01010101 }},
-	{"WriteFloat32Le", 4, func(m api.Memory, o uint32, v uint64) bool { return m.WriteFloat32Le(o, math.Float32frombits(uint32(v))) },
+	{"WriteFloat32Le", 4, func(m api.Memory, o uint32, v uint64) bool {
+		return m.WriteFloat32Le(o, math.Float32frombits(uint32(v)))
+	},
 		func(v uint64) uint64 { return 0x3f800000 | v&0x7fffff | 0x010101 }}, // a normal number in [1,2): no NaN canonicalisation question
 	{"WriteUint64Le", 8, func(m api.Memory, o uint32, v uint64) bool { return m.WriteUint64Le(o, v) }, func(v uint64) uint64 { return v | 0x0101010101010101 }},
 	{"WriteFloat64Le", 8, func(m api.Memory, o uint32, v uint64) bool { return m.WriteFloat64Le(o, math.Float64frombits(v)) },
